@@ -527,5 +527,7 @@ def syncrace_sig(e):
 PROPS['C13']['traces'].append(dict(profile='syncrace', spec='SyncConcTrace', enforce=['c13always', 'c13threshold', 'outcome', 'liverec'], sig=syncrace_sig,
                                    deterministic=False, quick_seeds=1, thorough_seeds=2))
 # the same executions end with a quiescent instant: live mapping = recovered mapping (C08), with a Sync batch parked inside its fsync
+PROPS['C04']['traces'].append(dict(profile='syncrace', name='syncquiesce', spec='SyncConcTrace', enforce=['liverec'], sig=syncrace_sig,
+                                   deterministic=False, quick_seeds=1, thorough_seeds=1))
 PROPS['C08']['traces'].append(dict(profile='syncrace', name='syncquiesce', spec='SyncConcTrace', enforce=['liverec'], sig=syncrace_sig,
                                    deterministic=False, quick_seeds=1, thorough_seeds=2))
